@@ -29,6 +29,9 @@ class FEval:
             v = d[1]
         elif kind == 'sqrt':
             v = math.sqrt(max(self.ev(d[1]), 0.0))
+        elif kind == 'cbrt':
+            v0 = self.ev(d[1])
+            v = math.copysign(abs(v0) ** (1.0 / 3.0), v0)
         elif kind == 'mod':
             v = self.ev(d[1]) % self.ev(d[2])
         elif kind == 'modk':
